@@ -311,4 +311,54 @@ theorem ortho_delta (b : Box K) (a bb c : K) (ha : 0 < a) (hb : 0 < bb) (hc : 0 
   · rw [ez]; nlinarith
   · rw [ez]; nlinarith
 
+/-- every vector is the combination of the cell vectors with its reciprocal components. -/
+theorem decompose (b : Box K) (hdet : M3.det b.vects ≠ 0) (d : V3 K) :
+    d = M3.vecMul ⟨V3.dot d b.recip.r0, V3.dot d b.recip.r1, V3.dot d b.recip.r2⟩ b.vects := by
+  simp only [Box.recip, M3.inv, M3.transpose, V3.dot, M3.vecMul]
+  ext
+  · simp only
+    rw [eq_comm]
+    have : ∀ (p q r x y z u v w s t o a b c D : K),
+        (p * (x / D) + q * (y / D) + r * (z / D)) * a + (p * (u / D) + q * (v / D) + r * (w / D)) * b
+          + (p * (s / D) + q * (t / D) + r * (o / D)) * c
+        = ((p * x + q * y + r * z) * a + (p * u + q * v + r * w) * b + (p * s + q * t + r * o) * c) / D := by
+      intros; ring
+    rw [this, div_eq_iff hdet]; simp only [M3.det, V3.dot, V3.cross]; ring
+  · simp only
+    rw [eq_comm]
+    have : ∀ (p q r x y z u v w s t o a b c D : K),
+        (p * (x / D) + q * (y / D) + r * (z / D)) * a + (p * (u / D) + q * (v / D) + r * (w / D)) * b
+          + (p * (s / D) + q * (t / D) + r * (o / D)) * c
+        = ((p * x + q * y + r * z) * a + (p * u + q * v + r * w) * b + (p * s + q * t + r * o) * c) / D := by
+      intros; ring
+    rw [this, div_eq_iff hdet]; simp only [M3.det, V3.dot, V3.cross]; ring
+  · simp only
+    rw [eq_comm]
+    have : ∀ (p q r x y z u v w s t o a b c D : K),
+        (p * (x / D) + q * (y / D) + r * (z / D)) * a + (p * (u / D) + q * (v / D) + r * (w / D)) * b
+          + (p * (s / D) + q * (t / D) + r * (o / D)) * c
+        = ((p * x + q * y + r * z) * a + (p * u + q * v + r * w) * b + (p * s + q * t + r * o) * c) / D := by
+      intros; ring
+    rw [this, div_eq_iff hdet]; simp only [M3.det, V3.dot, V3.cross]; ring
+
+/-- squared length of a combination of mutually orthogonal cell vectors. -/
+theorem normSq_ortho_comb (V : M3 K) (h01 : V3.dot V.r0 V.r1 = 0) (h02 : V3.dot V.r0 V.r2 = 0)
+    (h12 : V3.dot V.r1 V.r2 = 0) (c : V3 K) :
+    V3.normSq (M3.vecMul c V)
+      = c.x^2 * V3.normSq V.r0 + c.y^2 * V3.normSq V.r1 + c.z^2 * V3.normSq V.r2 := by
+  have e : V3.normSq (M3.vecMul c V)
+      = c.x^2 * V3.normSq V.r0 + c.y^2 * V3.normSq V.r1 + c.z^2 * V3.normSq V.r2
+        + 2 * c.x * c.y * V3.dot V.r0 V.r1 + 2 * c.x * c.z * V3.dot V.r0 V.r2
+        + 2 * c.y * c.z * V3.dot V.r1 V.r2 := by
+    simp only [V3.normSq, V3.dot, M3.vecMul]; ring
+  rw [e, h01, h02, h12]; ring
+
+/-- an image in reciprocal components. -/
+theorem image_decompose (b : Box K) (hdet : M3.det b.vects ≠ 0) (d : V3 K) (n : Shift) :
+    shiftBy b.vects d n = M3.vecMul ⟨V3.dot d b.recip.r0 + (n.1 : K), V3.dot d b.recip.r1 + (n.2.1 : K),
+      V3.dot d b.recip.r2 + (n.2.2 : K)⟩ b.vects := by
+  obtain ⟨h0, h1, h2⟩ := image_comp b hdet d n
+  rw [← h0, ← h1, ← h2]
+  exact decompose b hdet _
+
 end Atomman.C02
